@@ -124,8 +124,9 @@ def run_full(case, d):
     conf["output"]["instance_variables"]["active"] = world.ovar("i1")
     if case.get("packed"):  # a warm-started variable stored packed (integer + scale_factor/add_offset), exactly representable
         conf["output"]["instance_variables"]["age"] = world.ovar("i4", scale_factor=0.5, add_offset=100.0)
-    drive.run_model(conf, d)
-    return conf
+    npid_by_step = {}
+    drive.run_model(conf, d, after_step=lambda m, k: npid_by_step.__setitem__(k, int(m.state.npid)))
+    return conf, npid_by_step
 
 
 def run_restart(case, d, conf0, k, files):
@@ -151,7 +152,7 @@ def run_case(case):
     d = util.scratch("c08")
     n, P, r = case["nsteps"], case["period"], case["numrec"]
     try:
-        conf0 = run_full(case, d)
+        conf0, npid_by_step = run_full(case, d)
     except drive.RunFailed as e:
         bad("crash:uninterrupted", str(e))
         return util.result(viol=viols, nontrivial=1, outcomes=["crash"])
@@ -192,7 +193,7 @@ def run_case(case):
             bad("records:missing", f"records at S+{[(t - S0) / DT for t in missing]} steps exist in the uninterrupted run but not in the restarted one (has S+{[(t - S0) / DT for t in got_times]})", k)
         # known-finding discriminator: the restart file no longer holds the highest pid released so far
         idx_last = (k + 1) * r - 1
-        pid_true = released_upto(case, idx_last * P)
+        pid_true = npid_by_step[idx_last * P]  # particles released up to and including the restart step, counted in the uninterrupted run itself
         pid_file = max([-1] + [p for rec in full["records"][k * r : idx_last + 1] for p in rec["vars"]["pid"].tolist()]) + 1
         absent = ":highest-pid-absent-from-restart-file" if pid_file < pid_true else ""
         dead_before = max(full["records"][(k + 1) * r - 1]["vars"]["pid"].tolist() + [-1]) + 1 > full["records"][(k + 1) * r - 1]["count"]
